@@ -15,6 +15,7 @@ CACHE = os.path.join(VERIF, '.cache', 'wx-target')
 # unit -> (crate, repo-relative file the witness module is a child of, witness source, test name)
 WITNESS = {
   'heap': ('samlang-heap', 'crates/samlang-heap/src/lib.rs', 'wx/witness/samlang_heap.rs', 'verif_witness_search'),
+  'depgraph': ('samlang-services', 'crates/samlang-services/src/dep_graph.rs', 'wx/witness/samlang_services_dep_graph.rs', 'verif_witness_search'),
 }
 
 
